@@ -336,7 +336,7 @@ def visit(visitor, varData):
 
 
 def _setup_scale_paint(paint, scale):
-    if -2 <= scale <= 2 - (1 >> 14):
+    if -2 <= scale <= 2 - 1 / (1 << 14):
         paint.Format = otTables.PaintFormat.PaintScaleUniform
         paint.scale = scale
         return
